@@ -177,6 +177,16 @@ def c15_cases(ps, rnd, tier):
     for v in HEX_BOUNDARY + list(range(0, 40)):
         yield ("Seq(HexInt,1)", ps.Seq(ps.HexInt(), 1), [v], 1, 1, None, "leaf")
         yield ("Tupl(DecInt)", ps.Tupl(ps.DecInt()), ([v * 37],), 1, 1, None, "leaf")
+    # components whose text is empty (a Seq of no items, the rooms of a one-cell board) inside a container: items are produced
+    # although no character is consumed
+    for n in (1, 2, 3):
+        yield ("Seq(Seq(HexInt,0),%d)" % n, ps.Seq(ps.Seq(ps.HexInt(), 0), n), [[] for _ in range(n)], 2, 2, None, "empty-text")
+        yield ("Seq(Tupl(Seq(HexInt,0)),%d)" % n, ps.Seq(ps.Tupl(ps.Seq(ps.HexInt(), 0)), n), [([[]],) for _ in range(n)], 2, 2, None, "empty-text")
+        yield ("Seq(Rooms,%d)@1x1" % n, ps.Seq(ps.Rooms(), n), [[[(0, 0)]] for _ in range(n)], 1, 1, None, "empty-text")
+        yield ("Seq(Tupl(Seq(HexInt,0),HexInt),%d)" % n, ps.Seq(ps.Tupl(ps.Seq(ps.HexInt(), 0), ps.HexInt()), n),
+               [([[]], [j + 20]) for j in range(n)], 2, 2, None, "empty-text")
+    for (h, w) in ((1, 1), (2, 3)):
+        yield ("Grid(Seq(HexInt,0))", ps.Grid(ps.Seq(ps.HexInt(), 0)), [[[] for _ in range(w)] for _ in range(h)], h, w, None, "empty-text")
     # rooms: every partition of the small boards, rooms and cells in shuffled order
     boards = [(1, 1), (1, 2), (2, 1), (1, 3), (3, 1), (1, 4), (2, 2), (2, 3), (3, 2)] + ([(1, 6), (6, 1), (2, 4), (3, 3)] if tier != "quick" else [])
     for (h, w) in boards:
@@ -706,8 +716,10 @@ def run_c17(rep, tier, seed):
             outcomes[out] = outcomes.get(out, 0) + 1
             if f:
                 viol("decode:%s:%s:non-url" % (m.name, f["kind"]), "%s on %r: %s" % (m.name, u2, f["detail"]), dict(module=m.name, url=u2))
-        for (h, w) in sizes:
-            for b in bodies:
+        # a board without rows has no cells however wide it is declared (widths beyond any machine index included)
+        wide = [((0, ww), b) for ww in (2 ** 63 - 1, 2 ** 63, 10 ** 30) for b in ("", "0", "g", "1.", "00")]
+        for ((h, w), b) in [((h, w), b) for (h, w) in sizes for b in bodies] + wide:
+            if True:
                 rep.evaluations += 1
                 url = "https://puzz.link/p?%s/%d/%d/%s" % (m.urlname, w, h, b)
                 out, f = decode_case(m, url, (h, w))
@@ -767,8 +779,8 @@ def run_c17(rep, tier, seed):
               ("OneOf", ps.OneOf(ps.Spaces(0, "g"), ps.HexInt()))]
     sample = bodies if tier != "quick" else rnd.sample(bodies, 700)
     for (tname, comb) in terms:
-        for (h, w) in [(1, 1), (1, 3), (2, 2), (3, 2), (0, 0), (0, 2), (3, 0)]:
-            for b in sample:
+        for (h, w) in [(1, 1), (1, 3), (2, 2), (3, 2), (0, 0), (0, 2), (3, 0), (0, 2 ** 63), (0, 10 ** 30)]:
+            for b in (sample if w < 2 ** 31 else ["", "0", "g", "1.", "00"]):
                 rep.evaluations += 1
                 try:
                     r = ps.deserialize_problem(comb, b, height=h, width=w)
